@@ -504,3 +504,16 @@ func convertPosition(pos *ast.Position) *runtime.Position {
 		End:    pos.End,
 	}
 }
+
+// directRegister returns a register that directly holds the value, of type
+// typ, referred by reg. If reg is the indirect register of a variable, the
+// value of the variable is copied in a new register. It is used for a pointer
+// that is going to be dereferenced with the indirect form of its register.
+func (em *emitter) directRegister(reg int8, typ reflect.Type) int8 {
+	if reg >= 0 {
+		return reg
+	}
+	r := em.fb.newRegister(typ.Kind())
+	em.changeRegister(false, reg, r, typ, typ)
+	return r
+}
